@@ -11,16 +11,19 @@ package state
 
 //@ func State.PlayForMiner
 //@   property C17
+//@   local block *xldgpb.InternalBlock
 //@   at Meta.UpdateNextIrreversibleBlockHeight assert irr_args_current: $0 == block.Height && $1 == t.meta.Meta.IrreversibleBlockHeight && $2 == t.meta.Meta.IrreversibleSlideWindow
 //@   at State.updateLatestBlockid assert irr_update_dominates_pointer: sel(irrUpdFor, ifacePtr($1)) == block.Height && bytesEq($0, block.Blockid)
 
 //@ func State.PlayAndRepost
 //@   property C17
+//@   local block *xldgpb.InternalBlock
 //@   at Meta.UpdateNextIrreversibleBlockHeight assert irr_args_current: $0 == block.Height && $1 == t.meta.Meta.IrreversibleBlockHeight && $2 == t.meta.Meta.IrreversibleSlideWindow
 //@   at State.updateLatestBlockid assert irr_update_dominates_pointer: sel(irrUpdFor, ifacePtr($1)) == block.Height && bytesEq($0, block.Blockid)
 
 //@ func State.procTodoBlkForWalk
 //@   property C17
+//@   local todoBlk *xldgpb.InternalBlock
 //@   at Meta.UpdateNextIrreversibleBlockHeight assert irr_args_current: $0 == todoBlk.Height && $1 == t.meta.Meta.IrreversibleBlockHeight && $2 == t.meta.Meta.IrreversibleSlideWindow
 //@   at State.updateLatestBlockid assert irr_update_dominates_pointer: sel(irrUpdFor, ifacePtr($1)) == todoBlk.Height && bytesEq($0, todoBlk.Blockid)
 
@@ -28,6 +31,8 @@ package state
 // irreversible height: every undo step of a block is guarded.
 //@ func State.procUndoBlkForWalk
 //@   property C17
+//@   local undoBlk *xldgpb.InternalBlock
+//@   local curIrreversibleBlockHeight int64
 //@   at Database.NewBatch assert guard_reads_current_height: ledgerPrune || undoBlk.Height > t.meta.Meta.IrreversibleBlockHeight
 //@   at State.undoTxInternal assert undo_guarded: ledgerPrune || undoBlk.Height > curIrreversibleBlockHeight
 //@   at State.undoPayFee assert undo_guarded: ledgerPrune || undoBlk.Height > curIrreversibleBlockHeight
